@@ -50,14 +50,29 @@ def scale_ratio(spec):
 GEOS_KINDS = ("raised", "containment", "bounds_growth", "invalid_result", "monotone", "domain", "result_type")
 
 
+def _narrower_than_resolution(spec):
+    """On some axis the buffer (1e-9 for a zero buffer) is below twice the spacing of floats at the geometry's largest coordinate: the
+    buffered shape has no width there in binary64 and collapses to a line."""
+    import math as _m
+
+    g = spec["g"]
+    b = ref_bounds(g["type"], g["coordinates"])
+    for (tb, fb) in (spec["b1"], spec["b2"]):
+        for w, cmax in ((tb if tb > 0 else 1e-9, b[2]), (fb if fb > 0 else 1e-9, b[3])):
+            if w < 2 * _m.ulp(max(abs(cmax), 1e-300)):
+                return True
+    return False
+
+
 def f16(spec, kind, message):
     """Open-finding classifier F16: in the space the code buffers in, coordinates are >= 1e6 unit buffers
     (always the case for a zero buffer on an axis with coordinates >= 1e-3, since zero is emulated by 1e9)."""
     if spec["g"]["type"] in ("TimeStamp", "TimeInterval", "BoundingBox") or kind not in GEOS_KINDS:
         return False
-    if kind == "raised" and "KeyError" not in message and not ("ValidationError" in message and ("for MultiPolygon" in message or "for Polygon" in message)):
+    if kind == "raised" and "KeyError" not in message and not ("ValidationError" in message and ("for MultiPolygon" in message or "for Polygon" in message) and _narrower_than_resolution(spec)):
         # the finding's exceptions: KeyError('coordinates') (GEOS returned an empty shape) and the ValidationError of the result model when
-        # the buffered shape collapsed to a line (a zero buffer is 1e-9 wide: narrower than one ulp of a coordinate of 1.6e7).  Anything
+        # the buffered shape collapsed to a line (a zero buffer is 1e-9 wide: narrower than one ulp of a coordinate of 1.6e7) - matched only
+        # where the buffer really is below the float resolution of the coordinates.  Anything
         # else - a GEOSException, a TypeError - is news.
         return False
     return scale_ratio(spec) >= 1e6
